@@ -922,6 +922,17 @@ def cases(rng, tier):
         out.append(_sdf_edit_case(rng))
     for _ in range(25 * scale):
         out.append(_sdf_rebuild_case(rng))
+    for sc in API_SCENARIOS:
+        for _ in range(4 * scale):
+            out.append(_api_case(rng, sc))
+    for _ in range(10 * scale):
+        arom = rng.random() < 0.5
+        mol = _aromatic_mol(rng) if arom else _mol(rng, rng.choice([2, 4, 7]), rng.choice([1, 3, 6]), types=[1, 2, 3, 0, 4])
+        if not arom and rng.random() < 0.6:
+            mol["elems"][-1] = "H"
+        depth = rng.choice([1, 2, 3])
+        out.append({"kind": "rdkit-options", "mol": mol, "aromatic_ring": arom,
+                    "extra_models": [[[_f32(c + 0.75 * (k + 1)) for c in xyz] for xyz in mol["coords"]] for k in range(depth - 1)]})
     # --- MOL files and the RDKit bridge: oracle only
     for _ in range(12 * scale):
         n = rng.choice([1, 2, 5, 12])
@@ -1564,6 +1575,336 @@ def _oracle_sdf_rebuild(case):
     return v[:3]
 
 
+# ------------------------------------------------------------------------------------------ hardening stream ("api")
+API_SCENARIOS = ["molfile-state", "sdrecord-state", "sdfile-mapping", "convert-wrappers", "spellings", "limits"]
+
+
+def _api_case(rng, scenario=None):
+    sc = scenario or rng.choice(API_SCENARIOS)
+    c = {"kind": "api", "scenario": sc, "a": _small_mol(rng, rng.choice([2, 3, 5])), "b": _small_mol(rng, rng.choice([1, 4, 7])),
+         "h1": _header(rng), "h2": _header(rng), "md": _metadata(rng, rng.choice([1, 2])), "seed": rng.randrange(10 ** 6),
+         "ver": rng.choice([None, "V2000", "V3000"]), "dflt": rng.choice([0, 1, 2, 9])}
+    used = set()
+    c["names"] = []
+    for _ in range(rng.choice([1, 2, 3, 4])):
+        nm = _fresh_name(rng, used)
+        used.add(nm)
+        c["names"].append(nm)
+    c["extra_name"] = _fresh_name(rng, used)
+    if sc == "limits":
+        c["n_charges"] = rng.choice([7, 8, 9, 15, 16, 17, 24])
+        c["n_atoms"] = rng.choice([1, 30, 30, 999])
+    return c
+
+
+def _snap_atoms(a):
+    return (a.coord.copy(), a.element.copy(), a.charge.copy(), a.bonds.as_array().copy(), a.coord.dtype, a.charge.dtype)
+
+
+def _same_snap(x, y):
+    import numpy as np
+    return all(np.array_equal(p, q) for p, q in zip(x[:4], y[:4])) and x[4:] == y[4:]
+
+
+def _rec_of(h, mol, md, ver=None, dflt=0):
+    import biotite.structure as struc
+    from biotite.structure.io.mol import Metadata, SDRecord
+    rec = SDRecord(header=_mk_header(h))
+    rec.set_structure(_mk_atoms(mol), struc.BondType(dflt), ver)
+    rec.metadata = Metadata({_key_of(Metadata.Key, tuple(k)): "\n".join(v) for k, v in md})
+    return rec
+
+
+def _check_rec(rec, h, mol, md, prefix, dflt=0, name=None):
+    from biotite.structure.io.mol import Metadata
+    v = []
+    h0 = _mk_header(dict(h, mol_name=name if name is not None else h["mol_name"]))
+    if rec.header != h0:
+        v.append((prefix + "/header", f"{h0} but record has {rec.header}"))
+    want = [(_key_of(Metadata.Key, tuple(k)), "\n".join(val)) for k, val in md]
+    if list(rec.metadata.items()) != want:
+        v.append((prefix + "/metadata", f"{want[:2]} but record has {list(rec.metadata.items())[:2]}"))
+    v += _compare(mol, rec.get_structure(), dflt, CTAB_EXPRESSIBLE, prefix + "/structure")
+    return v
+
+
+def _oracle_api(case):
+    import copy as _copy
+    import numpy as np
+    import biotite.structure as struc
+    from biotite.structure.io.mol import Header, Metadata, MOLFile, SDFile, SDRecord, get_structure, set_structure
+    sc = case["scenario"]
+    A, B, h1, h2, md = case["a"], case["b"], case["h1"], case["h2"], case["md"]
+    P = "C18/api/" + sc
+    v = []
+
+    def reread(obj, cls):
+        buf = io.StringIO()
+        obj.write(buf)
+        buf.seek(0)
+        return cls.read(buf)
+
+    with warnings.catch_warnings():
+        warnings.simplefilter("ignore")
+        try:
+            if sc == "molfile-state":
+                f = MOLFile()
+                f.header = _mk_header(h1)
+                atoms_a = _mk_atoms(A)
+                snap = _snap_atoms(atoms_a)
+                f.set_structure(atoms_a, version=case["ver"])
+                if not _same_snap(snap, _snap_atoms(atoms_a)):
+                    v.append((P + "/set_structure-changes-its-argument", "the AtomArray given to MOLFile.set_structure was modified"))
+                v += _compare(A, f.get_structure(), 0, CTAB_EXPRESSIBLE, P + "/first-read")
+                # header edited in place on the object the file hands out, then a molecule of another size
+                f.header.comments = h2["comments"]
+                f.header.program = h2["program"]
+                f.set_structure(_mk_atoms(B), version=case["ver"])
+                v += _compare(B, f.get_structure(), 0, CTAB_EXPRESSIBLE, P + "/second-read")
+                hexp = dict(h1, comments=h2["comments"], program=h2["program"])
+                fresh = MOLFile()
+                fresh.header = _mk_header(hexp)
+                fresh.set_structure(_mk_atoms(B), version=case["ver"])
+                g = reread(f, MOLFile)
+                if g.header != _mk_header(hexp):
+                    v.append((P + "/header-edited-in-place-not-written", f"header edited to {_mk_header(hexp)}, file wrote {g.header}"))
+                v += _compare(B, g.get_structure(), 0, CTAB_EXPRESSIBLE, P + "/reread")
+                if str(f) != str(fresh):
+                    v.append((P + "/differs-from-fresh-object", "a reused MOLFile and a fresh one with the same content print differently"))
+                c = f.copy()
+                f.set_structure(_mk_atoms(A))
+                f.header = _mk_header(h2)
+                if c.header != _mk_header(hexp):
+                    v.append((P + "/copy-header", f"copy has header {c.header}"))
+                v += _compare(B, c.get_structure(), 0, CTAB_EXPRESSIBLE, P + "/copy")
+                # MOLFile can read the first record of an SD file
+                sd = SDFile({"first": _rec_of(h1, A, md), "second": _rec_of(h2, B, [])})
+                v += _compare(A, MOLFile.read(io.StringIO(sd.serialize())).get_structure(), 0, CTAB_EXPRESSIBLE, P + "/molfile-reads-sdf")
+                # class-level line iterators
+                buf = io.StringIO()
+                MOLFile.write_iter(buf, iter(fresh.lines))
+                buf.seek(0)
+                if [l.rstrip("\n") for l in MOLFile.read_iter(buf)] != fresh.lines:       # read_iter yields raw lines
+                    v.append((P + "/read_iter-write_iter", "lines differ"))
+            elif sc == "sdrecord-state":
+                rec = _rec_of(h1, A, md, case["ver"], case["dflt"])
+                v += _check_rec(rec, h1, A, md, P + "/first", case["dflt"])
+                t1 = rec.serialize()
+                if rec.serialize() != t1 or str(rec) != t1:
+                    v.append((P + "/serialize-not-stable", "two serialize() calls differ"))
+                # refused calls change nothing
+                bad = _mk_atoms(B)
+                bad.coord[0, 0] = 1e6
+                snap = _snap_atoms(bad)
+                for call in (lambda: rec.set_structure(bad), lambda: rec.set_structure(_mk_atoms(B), version="V9"),
+                             lambda: rec.metadata.__setitem__("k", ""), lambda: rec.metadata.__setitem__(5, "x"),
+                             lambda: setattr(rec, "metadata", 5)):
+                    try:
+                        call()
+                        v.append((P + "/invalid-call-accepted", "a call that must be refused was accepted"))
+                    except Exception:  # noqa: BLE001
+                        pass
+                    if rec.serialize() != t1:
+                        v.append((P + "/refused-call-changed-record", "record text changed although the call raised"))
+                        break
+                if not _same_snap(snap, _snap_atoms(bad)):
+                    v.append((P + "/refused-call-changed-argument", "AtomArray changed by a refused set_structure"))
+                if rec.ctab != "".join(l + "\n" for l in t1.splitlines()[3:3 + len(rec.ctab.splitlines())]):
+                    v.append((P + "/ctab-property", "SDRecord.ctab is not the CTAB part of serialize()"))
+                # another molecule, edited metadata and header: equal to a fresh record with that content
+                rec.set_structure(_mk_atoms(B), version=case["ver"])
+                rec.header.comments = h2["comments"]
+                k0 = _key_of(Metadata.Key, tuple(md[0][0]))
+                rec.metadata[k0] = "changed"
+                md2 = [[md[0][0], ["changed"]]] + [list(e) for e in md[1:]]
+                fresh = _rec_of(dict(h1, comments=h2["comments"]), B, md2, case["ver"])
+                if rec.serialize() != fresh.serialize() or not (rec == fresh):
+                    v.append((P + "/differs-from-fresh-object", "reused SDRecord differs from a fresh one with the same content"))
+                back = SDRecord.deserialize(rec.serialize())
+                v += _check_rec(back, dict(h1, comments=h2["comments"]), B, md2, P + "/reparsed")
+                if not (back == rec):
+                    v.append((P + "/eq", "a record and its re-parsed serialisation compare unequal"))
+            elif sc == "sdfile-mapping":
+                names = case["names"]
+                content = {n: (h1 if i % 2 == 0 else h2, A if i % 2 == 0 else B, md if i % 2 == 0 else []) for i, n in enumerate(names)}
+                sd = SDFile({n: _rec_of(*content[n]) for n in names})
+                if list(sd) != names or len(sd) != len(names) or list(sd.keys()) != names or not all(n in sd for n in names) \
+                        or case["extra_name"] in sd:
+                    v.append((P + "/iteration", f"{names} vs {list(sd)}"))
+                if sd.lines != sd.serialize().splitlines() or str(sd) != sd.serialize():
+                    v.append((P + "/lines-str", "lines / str disagree with serialize()"))
+                try:
+                    one = sd.record
+                    if len(names) != 1 or one is not sd[names[0]]:
+                        v.append((P + "/record-property", "record returned although the file has several records"))
+                except ValueError:
+                    if len(names) == 1:
+                        v.append((P + "/record-property", "record raised for a single-record file"))
+                parsed = SDFile.deserialize(sd.serialize())
+                if not (parsed == sd) or not (sd == parsed):
+                    v.append((P + "/eq", "a file and its re-parsed serialisation compare unequal"))
+                cp = sd.copy()
+                if list(cp.keys()) != names:
+                    v.append((P + "/copy-loses-records", f"copy() of a file with records {names} has records {list(cp.keys())}"))
+                else:
+                    if not (cp == sd):
+                        v.append((P + "/copy-not-equal", "copy() differs from the original"))
+                    cp[names[0]].header.comments = "edited in the copy"
+                    cp[names[0]].set_structure(_mk_atoms(B))
+                    for n in names:
+                        v += _check_rec(sd[n], *content[n], P + "/original-after-editing-copy", name=n)
+                # refused item assignment
+                t0 = sd.serialize()
+                for bad in ("not a record", None, 3):
+                    try:
+                        sd[case["extra_name"]] = bad
+                        v.append((P + "/invalid-call-accepted", f"file[name] = {bad!r} accepted"))
+                    except TypeError:
+                        pass
+                if sd.serialize() != t0:
+                    v.append((P + "/refused-call-changed-file", "file changed by a refused item assignment"))
+                # a name the header cannot hold: serialisation fails, deleting it heals the file
+                long = "n" * 81
+                sd[long] = _rec_of(h2, B, [])
+                try:
+                    sd.serialize()
+                    v.append((P + "/overlong-name-written", "a molecule name of 81 characters was serialised"))
+                except Exception:  # noqa: BLE001
+                    pass
+                del sd[long]
+                if sd.serialize() != t0:
+                    v.append((P + "/state-after-failed-serialize", "file differs after removing the offending record"))
+                # MutableMapping mix-ins
+                ref = list(names)
+                x = case["extra_name"]
+                got = sd.setdefault(ref[0], _rec_of(h2, B, []))
+                v += _check_rec(got, *content[ref[0]], P + "/setdefault-existing", name=ref[0])
+                sd.update({x: _rec_of(h2, B, md)})
+                ref.append(x)
+                content[x] = (h2, B, md)
+                rec = sd.pop(ref[0])
+                v += _check_rec(rec, *content[ref[0]], P + "/pop", name=ref[0])
+                ref.pop(0)
+                if list(sd.keys()) != ref or [r.header.mol_name for r in sd.values()] != ref or [k for k, _ in sd.items()] != ref:
+                    v.append((P + "/keys-after-pop-update", f"{ref} vs {list(sd.keys())}"))
+                back = reread(sd, SDFile)
+                if list(back.keys()) != ref:
+                    v.append((P + "/reread-names", f"{ref} read as {list(back.keys())}"))
+                else:
+                    for n in ref:
+                        v += _check_rec(back[n], *content[n], P + "/reread", name=n)
+                k, r = sd.popitem()                      # MutableMapping.popitem: the first key
+                if k not in ref or k in sd or len(sd) != len(ref) - 1:
+                    v.append((P + "/popitem", f"{k!r} popped from {ref}, left {list(sd.keys())}"))
+                sd.clear()
+                if len(sd) != 0 or sd.serialize() != "":
+                    v.append((P + "/clear", "file not empty after clear()"))
+            elif sc == "convert-wrappers":
+                dflt, ver = case["dflt"], case["ver"]
+                bt = struc.BondType(dflt)
+                # the same call through every entry level
+                texts = {}
+                mf = MOLFile()
+                set_structure(mf, _mk_atoms(A), bt, ver)
+                texts["MOLFile"] = mf.lines[3:]
+                rec = SDRecord()
+                set_structure(rec, _mk_atoms(A), default_bond_type=bt, version=ver)
+                texts["SDRecord"] = rec.ctab.splitlines()
+                sd = SDFile()
+                set_structure(sd, _mk_atoms(A), bt, ver)
+                if list(sd.keys()) != ["Molecule"]:
+                    v.append((P + "/empty-file-record-name", f"{list(sd.keys())}"))
+                texts["SDFile"] = sd[next(iter(sd))].ctab.splitlines()
+                sd2 = SDFile({n: _rec_of(h1, B, []) for n in case["names"]})
+                target = case["names"][-1]
+                set_structure(sd2, _mk_atoms(A), bt, ver, record_name=target)
+                texts["SDFile[name]"] = sd2[target].ctab.splitlines()
+                set_structure(sd2, _mk_atoms(A), bt, ver, record_name=case["extra_name"])
+                if list(sd2.keys()) != case["names"] + [case["extra_name"]]:
+                    v.append((P + "/new-record-name", f"{list(sd2.keys())}"))
+                direct = _rec_of(h1, A, [], ver, dflt).ctab.splitlines()
+                for lvl, t in texts.items():
+                    if t != direct:
+                        v.append((P + "/argument-not-forwarded/" + lvl, f"default_bond_type={dflt}, version={ver}: {t[:1]} vs {direct[:1]}"))
+                for obj, kw in ((mf, {}), (rec, {}), (sd, {}), (sd2, {"record_name": target})):
+                    v += _compare(A, get_structure(obj, **kw), dflt, CTAB_EXPRESSIBLE, P + "/get_structure")
+                for n in case["names"][:-1]:
+                    v += _compare(B, get_structure(sd2, n), 0, CTAB_EXPRESSIBLE, P + "/other-records-untouched")
+                try:
+                    get_structure(5)
+                    v.append((P + "/invalid-call-accepted", "get_structure(5)"))
+                except TypeError:
+                    pass
+            elif sc == "spellings":
+                base = _mk_atoms(A)
+                ref_lines = {ver: MOLFile() for ver in ("V2000", "V3000")}
+                for ver, f in ref_lines.items():
+                    f.set_structure(base, struc.BondType(case["dflt"]), ver)
+                n = len(A["elems"])
+                for dt in (np.int8, np.int16, np.int32, np.int64):
+                    a = _mk_atoms(A)
+                    a.del_annotation("charge")
+                    a.add_annotation("charge", dt)
+                    a.charge[:] = A["charges"]
+                    # coordinates from a float64 / Fortran-ordered / strided source, bonds reversed and duplicated, other widths
+                    src = np.asfortranarray(np.array(A["coords"], dtype=np.float64).reshape(n, 3))
+                    a.coord = src if dt in (np.int8, np.int32) else np.repeat(src, 2, axis=0)[::2]
+                    bonds = [[j, i, t] for i, j, t in A["bonds"]] + [list(b) for b in A["bonds"][:1]]
+                    a.bonds = struc.BondList(n, np.array(bonds, dtype=np.int32 if dt is np.int8 else np.uint32).reshape(-1, 3))
+                    for ver, f in ref_lines.items():
+                        for d in (struc.BondType(case["dflt"]), int(case["dflt"]), np.uint8(case["dflt"]), np.int64(case["dflt"])):
+                            for vv in (ver, np.str_(ver)):
+                                g = MOLFile()
+                                g.set_structure(a, d, vv)
+                                want = sorted(f.lines[3:]) if A["bonds"] else f.lines[3:]
+                                if sorted(g.lines[3:]) != sorted(f.lines[3:]):
+                                    v.append((P + f"/charge-{dt.__name__}-dflt-{type(d).__name__}-version-{type(vv).__name__}",
+                                              "the same molecule in another spelling is written differently"))
+                                    break
+                K = Metadata.Key
+                if K(number=np.int64(12), name=np.str_("ab"), registry_internal=np.uint8(7)) != K(number=12, name="ab", registry_internal=7) \
+                        or K(number="12", registry_internal="7") != K(number=12, registry_internal=7):
+                    v.append((P + "/key-spelling", "keys given with NumPy scalars / digit strings differ from the plain ones"))
+                sd = SDFile()
+                sd[np.str_(case["names"][0])] = _rec_of(h1, A, md)
+                back = SDFile.deserialize(sd.serialize())
+                v += _check_rec(back[case["names"][0]], h1, A, md, P + "/np-str-name", name=case["names"][0])
+                hd = Header(mol_name=np.str_("x"), time=__import__("datetime").date(2024, 2, 29))
+                if Header.deserialize(hd.serialize()).time != __import__("datetime").datetime(2024, 2, 29, 0, 0):
+                    v.append((P + "/date-time", "a date is not read back as that day at 00:00"))
+            elif sc == "limits":
+                n = case["n_atoms"]
+                k = min(case["n_charges"], n)
+                mol = {"elems": ["C"] * n, "charges": [(i % 15 + 1) * (1 if i % 2 else -1) if i < k else 0 for i in range(n)],
+                       "coords": [[_f32(i * 0.125), 0.0, _f32(-i * 0.5)] for i in range(n)], "bonds": [[i, i + 1, 1] for i in range(n - 1)]}
+                for ver in (None, "V2000", "V3000"):
+                    f = MOLFile()
+                    f.set_structure(_mk_atoms(mol), version=ver)
+                    if ver != "V3000":
+                        for what, l in _audit_v2000(f.lines[3:], n, n - 1)[:1]:
+                            v.append(("C18/v2000/shifted-" + what, repr(l)))
+                        chg = [l for l in f.lines if l.startswith("M  CHG")]
+                        if [int(l[6:9]) for l in chg] != [8] * (k // 8) + ([k % 8] if k % 8 else []):
+                            v.append((P + "/chg-lines-not-filled", f"{k} charges written as lines of {[int(l[6:9]) for l in chg]}"))
+                    v += _compare(mol, f.get_structure(), 0, CTAB_EXPRESSIBLE, P + f"/{ver}")
+                hh = dict(h1, mol_name="N" * 80, initials="ab", program="p" * 8, dimensions="3D", scaling_factors="s" * 12,
+                          energy="e" * 12, registry_number="r" * 6)
+                rec = _rec_of(hh, A, [[list(md[0][0]), ["x"]]])
+                sd = SDFile({"N" * 80: rec, "": SDRecord(), "z": SDRecord(header=_mk_header(h2))})
+                back = SDFile.deserialize(sd.serialize())
+                if list(back.keys()) != ["N" * 80, "", "z"]:
+                    v.append((P + "/names", f"{list(back.keys())}"))
+                else:
+                    v += _check_rec(back["N" * 80], hh, A, [[list(md[0][0]), ["x"]]], P + "/full-width-fields")
+                    if back[""].get_structure().array_length() != 0 or back["z"].get_structure().array_length() != 0:
+                        v.append((P + "/record-without-structure", "a record without structure does not come back empty"))
+        except Exception as e:  # noqa: BLE001
+            import traceback
+            tb = traceback.extract_tb(e.__traceback__)[-1]
+            v.append((P + "/raises/" + type(e).__name__, f"{e} ({os.path.basename(tb.filename)}:{tb.lineno})"))
+    return v[:4]
+
+
 def _oracle_molfile(case):
     from biotite.structure.io.mol import MOLFile
     f = MOLFile()
@@ -1661,6 +2002,103 @@ def _rd_snapshot(rd):
             [c.GetPositions().tolist() for c in rd.GetConformers()], block)
 
 
+def _oracle_rdkit_options(case):
+    """Less-used parameters of to_mol / from_mol: kekulize, explicit_hydrogen, include_extra_annotations, conformer_id,
+    residue information; arguments unchanged; NumPy spellings of conformer_id."""
+    import numpy as np
+    import biotite.structure as struc
+    from rdkit import Chem
+    from biotite.interface import rdkit as br
+    mol = case["mol"]
+    n = len(mol["elems"])
+    atoms = _mk_atoms(mol)
+    atoms.atom_name[:] = [f"{e[:1]}{i}" for i, e in enumerate(mol["elems"])]
+    atoms.res_name[:] = "LIG"
+    atoms.chain_id[:] = "B"
+    atoms.res_id[:] = 42
+    atoms.hetero[:] = True
+    atoms.ins_code[:] = "A"
+    atoms.set_annotation("b_factor", np.arange(n, dtype=float) * 0.5)
+    atoms.set_annotation("occupancy", np.full(n, 0.75))
+    atoms.set_annotation("my_int", np.arange(n) * 3 - 2)
+    atoms.set_annotation("my_str", np.array([f"s{i}" for i in range(n)]))
+    atoms.set_annotation("my_flag", np.arange(n) % 2 == 0)
+    models = [mol["coords"]] + list(case.get("extra_models", []))
+    stack = struc.stack([atoms] * len(models))
+    stack.coord[:] = np.array(models, dtype=np.float32)
+    P = "C18/rdkit-options"
+    v = []
+    with warnings.catch_warnings():
+        warnings.simplefilter("ignore")
+        try:
+            rd = br.to_mol(stack, include_extra_annotations=["my_int", "my_str", "my_flag"])
+            ids = [c.GetId() for c in rd.GetConformers()]
+            if len(set(ids)) != len(models):
+                v.append((P + "/conformer-ids-not-unique", f"{len(models)} models became conformers with ids {ids}"))
+            for k in range(len(models)):
+                try:
+                    one = br.from_mol(rd, conformer_id=k, add_hydrogen=False)
+                except Exception as e:  # noqa: BLE001
+                    v.append((P + "/conformer_id", f"model {k} of {len(models)} cannot be fetched by conformer_id={k}: {type(e).__name__}"))
+                    break
+                if not isinstance(one, struc.AtomArray) or not np.array_equal(one.coord, np.array(models[k], dtype=np.float32)):
+                    v.append((P + "/conformer_id", f"conformer_id={k} does not return model {k}"))
+                    break
+                for spelled in (np.int64(k), np.int32(k)):
+                    try:
+                        other = br.from_mol(rd, conformer_id=spelled, add_hydrogen=False)
+                        if not np.array_equal(other.coord, one.coord):
+                            v.append((P + "/conformer_id-numpy-int", f"conformer_id={spelled!r} returns another model than {k}"))
+                    except Exception:  # noqa: BLE001      (refusing a NumPy integer is not a corruption)
+                        pass
+            both = br.from_mol(rd, conformer_id="3D", add_hydrogen=False)
+            if not isinstance(both, struc.AtomArrayStack) or both.stack_depth() != len(models):
+                v.append((P + "/3D", "conformer_id='3D' does not return all models"))
+            back = br.from_mol(rd, add_hydrogen=False)
+            for cat in ("atom_name", "res_name", "chain_id", "res_id", "hetero", "ins_code", "b_factor", "occupancy", "my_int", "my_str", "my_flag"):
+                if cat not in back.get_annotation_categories() or back.get_annotation(cat).tolist() != atoms.get_annotation(cat).tolist():
+                    v.append((P + "/annotation/" + cat, f"{atoms.get_annotation(cat).tolist()[:3]} came back as "
+                              f"{back.get_annotation(cat).tolist()[:3] if cat in back.get_annotation_categories() else 'missing'}"))
+                    break
+            if case.get("aromatic_ring"):
+                snap = _snap_atoms(atoms)
+                kek = br.to_mol(atoms, kekulize=True)
+                if not _same_snap(snap, _snap_atoms(atoms)):
+                    v.append((P + "/kekulize-changes-its-argument", "to_mol(kekulize=True) modified the AtomArray's bonds"))
+                if any(b.GetBondType() == Chem.BondType.AROMATIC for b in kek.GetBonds()):
+                    v.append((P + "/kekulize", "aromatic bond types left although kekulize=True"))
+                got = {(int(i), int(j)): int(t) for i, j, t in br.from_mol(kek, add_hydrogen=False).bonds.as_array()}
+                want = {(i, j): {5: 1, 6: 2, 7: 3, 9: 0}.get(t, t) for i, j, t in mol["bonds"]}
+                if got != want:
+                    v.append((P + "/kekulize-orders", f"{sorted(want.items())[:3]} came back as {sorted(got.items())[:3]}"))
+            if "H" in mol["elems"]:
+                snap = _snap_atoms(atoms)
+                try:
+                    br.to_mol(atoms, explicit_hydrogen=False)
+                    v.append((P + "/explicit_hydrogen", "hydrogens present but explicit_hydrogen=False accepted"))
+                except struc.BadStructureError:
+                    pass
+                if not _same_snap(snap, _snap_atoms(atoms)):
+                    v.append((P + "/refused-call-changed-argument", "AtomArray changed by a refused to_mol"))
+                rd2 = br.to_mol(atoms, explicit_hydrogen=True)
+                if not all(a.GetNoImplicit() for a in rd2.GetAtoms()):
+                    v.append((P + "/explicit_hydrogen", "explicit_hydrogen=True does not mark atoms as having no implicit hydrogens"))
+        except Exception as e:  # noqa: BLE001
+            v.append((P + "/raises/" + type(e).__name__, f"{e}"))
+    return v[:4]
+
+
+def _forked(fn, case, key):
+    """A crash or a hang of the code under test (RDKit is compiled code) is a verdict with this case as failing input."""
+    from common import sandbox
+    r = sandbox.run_forked(fn, case, timeout=120)
+    if r[0] == "ok":
+        return r[1]
+    if r[0] == "err":
+        return [(key + "/oracle-raises/" + r[1], r[2])]
+    return [(key + "/" + r[0], f"the process running this case ended with {r}")]
+
+
 def _oracle_rdkit(case):
     import numpy as np
     import biotite.structure as struc
@@ -1749,10 +2187,14 @@ def oracle(case):
         return _oracle_sdf_edit(case)
     if k == "sdf-rebuild":
         return _oracle_sdf_rebuild(case)
+    if k == "api":
+        return _oracle_api(case)
     if k == "molfile":
         return _oracle_molfile(case)
     if k == "rdkit":
-        return _oracle_rdkit(case)
+        return _forked(_oracle_rdkit, case, "C18/rdkit")
+    if k == "rdkit-options":
+        return _forked(_oracle_rdkit_options, case, "C18/rdkit-options")
     if k == "key-name":
         return _oracle_key(tuple(case["key"]))
     return []
@@ -1767,7 +2209,7 @@ def nontrivial(case, impl_out):
         return len(m["elems"]) >= 2 or bool(m["bonds"]) or any(m["charges"])
     if k == "sdf":
         return len(case["records"]) >= 2
-    if k in ("sdf-edit", "sdf-rebuild"):
+    if k in ("sdf-edit", "sdf-rebuild", "api"):
         return True
     if "key" in case:
         return sum(x is not None for x in case["key"]) >= 2
